@@ -60,6 +60,26 @@ def _alarm(signum, frame):
 
 
 _MOD = None
+_MEM_DONE = [False]
+
+
+def _limit_memory():
+    """Per-worker address-space limit: current size + 4 GiB."""
+    if _MEM_DONE[0]:
+        return
+    _MEM_DONE[0] = True
+    try:
+        import resource
+        with open("/proc/self/statm") as f:
+            pages = int(f.read().split()[0])
+        cur = pages * resource.getpagesize()
+        lim = cur + 4 * 1024 ** 3
+        soft, hard = resource.getrlimit(resource.RLIMIT_AS)
+        if hard != resource.RLIM_INFINITY:
+            lim = min(lim, hard)
+        resource.setrlimit(resource.RLIMIT_AS, (lim, hard))
+    except Exception:
+        pass
 
 
 def _worker(args):
@@ -70,6 +90,7 @@ def _worker(args):
     out = []
     signal.signal(signal.SIGALRM, _alarm)
     signal.signal(signal.SIGVTALRM, _alarm)
+    _limit_memory()
     for idx in range(lo, hi):
         rng = derive_rng(seed, prop, family, idx)
         t0 = time.time()
@@ -84,6 +105,14 @@ def _worker(args):
             signal.setitimer(signal.ITIMER_VIRTUAL, 0)
             r = {"harness": "run timeout (%ss cpu / %ss wall) family=%s idx=%d" %
                  (RUN_CPU_TIMEOUT_S, RUN_TIMEOUT_S, family, idx)}
+        except MemoryError:
+            # a run that never ends usually also grows without bound: the per-worker address-space
+            # limit turns that into MemoryError instead of an OOM kill of the whole pool
+            signal.setitimer(signal.ITIMER_REAL, 0)
+            signal.setitimer(signal.ITIMER_VIRTUAL, 0)
+            import gc
+            gc.collect()
+            r = {"harness": "run timeout (memory limit of the worker exhausted) family=%s idx=%d" % (family, idx)}
         except Exception:
             signal.setitimer(signal.ITIMER_REAL, 0)
             signal.setitimer(signal.ITIMER_VIRTUAL, 0)
